@@ -1031,8 +1031,13 @@ class YAMLPath:
 
         Returns:  (str) `section` with all special symbols escaped
         """
-        return YAMLPath.ensure_escaped(
-            section,
+        # The section is raw text (e.g. a Hash key), not yet a YAML Path, so
+        # every special symbol -- including a backslash that happens to
+        # precede another one -- is escaped unconditionally.
+        symbols = (
             '\\', str(pathsep), '(', ')', '[', ']', '^', '$', '%',
             ' ', "'", '"'
         )
+        return "".join(
+            "\\" + char if char in symbols else char
+            for char in str(section))
